@@ -70,8 +70,8 @@ impl Variable {
     fn debug(&self, depth: u8) -> String {
         match_any! { self,
             Self::Int(value)
-            | Self::Float(value)
-            | Self::String(value) => format!("{value:?}"),
+            | Self::Float(value) => format!("{value:?}"),
+            Self::String(value) => debug_string(value),
             _ => self.string(depth)
         }
     }
@@ -117,6 +117,29 @@ impl Variable {
             Type::Never => None,
         }
     }
+}
+
+/// Debug rendering of a string that reads back as the same string: Rust prints NUL as `\0`,
+/// which followed by a digit would be read as an octal escape, so NUL is written `\u{0}`
+fn debug_string(value: &str) -> String {
+    let debug = format!("{value:?}");
+    let mut result = String::with_capacity(debug.len());
+    let mut chars = debug.chars();
+    while let Some(char) = chars.next() {
+        if char != '\\' {
+            result.push(char);
+            continue;
+        }
+        match chars.next() {
+            Some('0') => result.push_str("\\u{0}"),
+            Some(escaped) => {
+                result.push(char);
+                result.push(escaped);
+            }
+            None => result.push(char),
+        }
+    }
+    result
 }
 
 impl Typed for Variable {
